@@ -165,6 +165,20 @@ func ModelType(t types.Type) (string, error) {
 		if b, ok := u.Elem().Underlying().(*types.Basic); ok && b.Info()&types.IsInteger != 0 && b.Kind() != types.Byte && b.Kind() != types.Uint8 {
 			return "TInts", nil
 		}
+	case *types.Pointer:
+		// a pointer to an array of integers
+		if arr, ok := u.Elem().Underlying().(*types.Array); ok {
+			if b, ok := arr.Elem().Underlying().(*types.Basic); ok && b.Info()&types.IsInteger != 0 && b.Kind() != types.Byte && b.Kind() != types.Uint8 {
+				return "TPArr", nil
+			}
+		}
+	case *types.Map:
+		// map[int]string
+		kb, ok1 := u.Key().Underlying().(*types.Basic)
+		vb, ok2 := u.Elem().Underlying().(*types.Basic)
+		if ok1 && ok2 && kb.Info()&types.IsInteger != 0 && vb.Info()&types.IsString != 0 {
+			return "TMapIS", nil
+		}
 	case *types.Struct:
 		if n, ok := t.(*types.Named); ok && n.Obj().Pkg() != nil && n.Obj().Pkg().Path() == "time" && n.Obj().Name() == "Time" {
 			return "TTime", nil
